@@ -234,6 +234,10 @@ def run(chk, driver, tier):
     # the repaired D7 witness stays repaired
     r = impl.latest_tag("vYYYY.0M.0D", ["v2021.02.30", "v2021.02.28"], [2026, 9, 29])
     chk.oracle_case({"kind": "impossible-date-tag"}, None if r == {"ok": "v2021.02.28"} else "a calendar-impossible tag breaks tag resolution: %r" % (r,))
+    # the same for a legacy pattern (tags that match the regex but are no calendar date must simply not match)
+    r1 = impl.latest_tag("{year}.{month}.{dom}", ["2021.02.30", "2021.02.28", "junk"], [2026, 9, 29])
+    chk.oracle_case({"kind": "impossible-date-tag-legacy"}, None if r1 == {"ok": "2021.02.28"} else
+                    "a calendar-impossible tag breaks tag resolution for the legacy pattern {year}.{month}.{dom}: %r" % (r1,))
     return lines
 
 
